@@ -193,9 +193,53 @@ fn p_b(s: &str) -> Option<B> {
 fn r_b(b: impl AsRef<[u8]>) -> String {
     format!("b:{}", hx(b))
 }
+/// Typed (Recon) bodies: `Option<String>` / `Option<i64>`; `None` prints as the EMPTY Recon text (a zero-length body).
+type TB = Option<String>;
+type IB = Option<i64>;
+fn un_dec_opt(s: &str) -> Option<IB> {
+    if s == "-" {
+        Some(None)
+    } else {
+        un_dec(s).map(Some)
+    }
+}
+fn some_dec_opt(s: &str) -> Option<Option<IB>> {
+    un_dec_opt(s).map(Some)
+}
+fn some_optstr(s: &str) -> Option<Option<TB>> {
+    un_opt_str(s).map(Some)
+}
+fn r_opt_string(s: &TB) -> String {
+    match s {
+        Some(s) => hx(s),
+        None => "~".into(),
+    }
+}
+fn p_tb(s: &str) -> Option<TB> {
+    un_opt_str(s.strip_prefix("s:")?)
+}
+fn r_tb(s: &TB) -> String {
+    format!("s:{}", r_opt_string(s))
+}
+fn g_tb(r: &mut Rng) -> TB {
+    if r.chance(1, 5) {
+        None
+    } else {
+        Some(g_string(r))
+    }
+}
+fn g_ib(r: &mut Rng) -> String {
+    if r.chance(1, 5) {
+        "-".into()
+    } else {
+        dec_hex(g_int(r))
+    }
+}
+#[allow(dead_code)]
 fn p_s(s: &str) -> Option<String> {
     un_str(s.strip_prefix("s:")?)
 }
+#[allow(dead_code)]
 fn r_s(s: &str) -> String {
     format!("s:{}", hx(s))
 }
@@ -311,20 +355,20 @@ fn rr_mapop(m: &MapOperation<BytesMut, BytesMut>) -> String {
 fn rr_mapmsg(m: &MapMessage<BytesMut, BytesMut>) -> String {
     r_mapmsg(m, hx_bm, hx_bm)
 }
-fn typed_mapop(s: &str) -> Option<MapOperation<String, String>> {
-    p_mapop(s, un_str, un_str)
+fn typed_mapop(s: &str) -> Option<MapOperation<String, TB>> {
+    p_mapop(s, un_str, un_opt_str)
 }
-fn typed_mapmsg(s: &str) -> Option<MapMessage<String, String>> {
-    p_mapmsg(s, un_str, un_str)
+fn typed_mapmsg(s: &str) -> Option<MapMessage<String, TB>> {
+    p_mapmsg(s, un_str, un_opt_str)
 }
-fn rt_mapop(m: &MapOperation<String, String>) -> String {
-    r_mapop(m, r_string, r_string)
+fn rt_mapop(m: &MapOperation<String, TB>) -> String {
+    r_mapop(m, r_string, r_opt_string)
 }
-fn rt_mapmsg(m: &MapMessage<String, String>) -> String {
-    r_mapmsg(m, r_string, r_string)
+fn rt_mapmsg(m: &MapMessage<String, TB>) -> String {
+    r_mapmsg(m, r_string, r_opt_string)
 }
 /// typed map message -> the raw one whose key / value are the Recon texts
-fn recon_mapmsg(m: MapMessage<String, String>) -> MapMessage<B, B> {
+fn recon_mapmsg(m: MapMessage<String, TB>) -> MapMessage<B, B> {
     match m {
         MapMessage::Update { key, value } => MapMessage::Update { key: recon(&key), value: recon(&value) },
         MapMessage::Remove { key } => MapMessage::Remove { key: recon(&key) },
@@ -624,24 +668,24 @@ fn codecs() -> Vec<CodecInfo> {
             name: "storeresp-v",
             typed: false,
             mk: || {
-                mk::<StoreResponse<i64>, _, _>(
+                mk::<StoreResponse<IB>, _, _>(
                     estore::ValueStoreResponseEncoder::default(),
                     estore::RawValueStoreResponseDecoder::default,
-                    |s| Some(StoreResponse::new(un_dec(unwrap_p("ev", s)?.strip_prefix("b:")?)?)),
+                    |s| Some(StoreResponse::new(un_dec_opt(unwrap_p("ev", s)?.strip_prefix("b:")?)?)),
                     |e, m, d| ok!(e.encode(m, d)),
                     |i: &StoreResponse<BytesMut>| format!("ev({})", r_b(&i.message)),
                 )
             },
-            gen: |r| format!("ev(b:{})", dec_hex(g_int(r))),
+            gen: |r| format!("ev(b:{})", g_ib(r)),
         },
         CodecInfo {
             name: "storeresp-m",
             typed: false,
             mk: || {
-                mk::<StoreResponse<MapOperation<i32, i64>>, _, _>(
+                mk::<StoreResponse<MapOperation<i32, IB>>, _, _>(
                     estore::MapStoreResponseEncoder::default(),
                     estore::RawMapStoreResponseDecoder::default,
-                    |s| Some(StoreResponse::new(p_mapop(unwrap_p("ev", s)?, un_i32_dec, un_dec)?)),
+                    |s| Some(StoreResponse::new(p_mapop(unwrap_p("ev", s)?, un_i32_dec, un_dec_opt)?)),
                     |e, m, d| ok!(e.encode(m, d)),
                     |i: &StoreResponse<MapOperation<BytesMut, BytesMut>>| format!("ev({})", rr_mapop(&i.message)),
                 )
@@ -652,15 +696,15 @@ fn codecs() -> Vec<CodecInfo> {
             name: "dlop",
             typed: false,
             mk: || {
-                mk::<DownlinkOperation<i64>, _, _>(
+                mk::<DownlinkOperation<IB>, _, _>(
                     edl::DownlinkOperationEncoder::default(),
                     edl::DownlinkOperationDecoder::default,
-                    |s| Some(DownlinkOperation { body: un_dec(s.strip_prefix("b:")?)? }),
+                    |s| Some(DownlinkOperation { body: un_dec_opt(s.strip_prefix("b:")?)? }),
                     |e, m, d| ok!(e.encode(m, d)),
                     |i: &DownlinkOperation<bytes::Bytes>| r_b(&i.body),
                 )
             },
-            gen: |r| format!("b:{}", dec_hex(g_int(r))),
+            gen: |r| format!("b:{}", g_ib(r)),
         },
         CodecInfo {
             name: "rawreq",
@@ -709,26 +753,26 @@ fn codecs() -> Vec<CodecInfo> {
             name: "lanereq-tv",
             typed: true,
             mk: || {
-                mk::<LaneRequest<String>, _, _>(
+                mk::<LaneRequest<TB>, _, _>(
                     elane::ValueLaneRequestEncoder::default(),
-                    elane::ValueLaneRequestDecoder::<String>::default,
-                    |s| p_lanereq(s, p_s),
+                    elane::ValueLaneRequestDecoder::<TB>::default,
+                    |s| p_lanereq(s, p_tb),
                     |e, m, d| ok!(e.encode(m, d)),
-                    |i: &LaneRequest<String>| r_lanereq(i, |b| r_s(b)),
+                    |i: &LaneRequest<TB>| r_lanereq(i, |b| r_tb(b)),
                 )
             },
-            gen: |r| g_lanereq(r, |r| r_s(&g_string(r))),
+            gen: |r| g_lanereq(r, |r| r_tb(&g_tb(r))),
         },
         CodecInfo {
             name: "lanereq-tm",
             typed: true,
             mk: || {
-                mk::<LaneRequest<MapMessage<String, String>>, _, _>(
+                mk::<LaneRequest<MapMessage<String, TB>>, _, _>(
                     elane::MapLaneRequestEncoder::default(),
-                    elane::MapLaneRequestDecoder::<String, String>::default,
+                    elane::MapLaneRequestDecoder::<String, TB>::default,
                     |s| p_lanereq(s, typed_mapmsg),
                     |e, m, d| ok!(e.encode(m, d)),
-                    |i: &LaneRequest<MapMessage<String, String>>| r_lanereq(i, rt_mapmsg),
+                    |i: &LaneRequest<MapMessage<String, TB>>| r_lanereq(i, rt_mapmsg),
                 )
             },
             gen: |r| g_lanereq(r, g_typed_mapmsg),
@@ -737,26 +781,26 @@ fn codecs() -> Vec<CodecInfo> {
             name: "laneresp-tv",
             typed: true,
             mk: || {
-                mk::<LaneResponse<String>, _, _>(
+                mk::<LaneResponse<TB>, _, _>(
                     elane::ValueLaneResponseEncoder::default(),
-                    elane::ValueLaneResponseDecoder::<String>::default,
-                    |s| p_laneresp(s, p_s),
+                    elane::ValueLaneResponseDecoder::<TB>::default,
+                    |s| p_laneresp(s, p_tb),
                     |e, m, d| ok!(e.encode(m, d)),
-                    |i: &LaneResponse<String>| r_laneresp(i, |b| r_s(b)),
+                    |i: &LaneResponse<TB>| r_laneresp(i, |b| r_tb(b)),
                 )
             },
-            gen: |r| g_laneresp(r, |r| r_s(&g_string(r))),
+            gen: |r| g_laneresp(r, |r| r_tb(&g_tb(r))),
         },
         CodecInfo {
             name: "laneresp-tm",
             typed: true,
             mk: || {
-                mk::<LaneResponse<MapOperation<String, String>>, _, _>(
+                mk::<LaneResponse<MapOperation<String, TB>>, _, _>(
                     elane::MapLaneResponseEncoder::default(),
-                    elane::MapLaneResponseDecoder::<String, String>::default,
+                    elane::MapLaneResponseDecoder::<String, TB>::default,
                     |s| p_laneresp(s, typed_mapop),
                     |e, m, d| ok!(e.encode(m, d)),
-                    |i: &LaneResponse<MapOperation<String, String>>| r_laneresp(i, rt_mapop),
+                    |i: &LaneResponse<MapOperation<String, TB>>| r_laneresp(i, rt_mapop),
                 )
             },
             gen: |r| g_laneresp(r, g_typed_mapop),
@@ -765,10 +809,10 @@ fn codecs() -> Vec<CodecInfo> {
             name: "storeinit-tv",
             typed: true,
             mk: || {
-                mk::<StoreInitMessage<String>, _, _>(
+                mk::<StoreInitMessage<TB>, _, _>(
                     estore::RawValueStoreInitEncoder::default(),
-                    estore::ValueStoreInitDecoder::<String>::default,
-                    |s| p_storeinit(s, p_s),
+                    estore::ValueStoreInitDecoder::<TB>::default,
+                    |s| p_storeinit(s, p_tb),
                     |e, m, d| {
                         let raw = match m {
                             StoreInitMessage::Command(s) => StoreInitMessage::Command(recon(&s)),
@@ -776,18 +820,18 @@ fn codecs() -> Vec<CodecInfo> {
                         };
                         ok!(e.encode(raw, d))
                     },
-                    |i: &StoreInitMessage<String>| r_storeinit(i, |b| r_s(b)),
+                    |i: &StoreInitMessage<TB>| r_storeinit(i, |b| r_tb(b)),
                 )
             },
-            gen: |r| g_storeinit(r, |r| r_s(&g_string(r))),
+            gen: |r| g_storeinit(r, |r| r_tb(&g_tb(r))),
         },
         CodecInfo {
             name: "storeinit-tm",
             typed: true,
             mk: || {
-                mk::<StoreInitMessage<MapMessage<String, String>>, _, _>(
+                mk::<StoreInitMessage<MapMessage<String, TB>>, _, _>(
                     estore::RawMapStoreInitEncoder::default(),
-                    estore::MapStoreInitDecoder::<String, String>::default,
+                    estore::MapStoreInitDecoder::<String, TB>::default,
                     |s| p_storeinit(s, typed_mapmsg),
                     |e, m, d| {
                         let raw = match m {
@@ -796,7 +840,7 @@ fn codecs() -> Vec<CodecInfo> {
                         };
                         ok!(e.encode(raw, d))
                     },
-                    |i: &StoreInitMessage<MapMessage<String, String>>| r_storeinit(i, rt_mapmsg),
+                    |i: &StoreInitMessage<MapMessage<String, TB>>| r_storeinit(i, rt_mapmsg),
                 )
             },
             gen: |r| g_storeinit(r, g_typed_mapmsg),
@@ -805,10 +849,10 @@ fn codecs() -> Vec<CodecInfo> {
             name: "dlnot-v",
             typed: true,
             mk: || {
-                mk::<DownlinkNotification<String>, _, _>(
+                mk::<DownlinkNotification<TB>, _, _>(
                     edl::DownlinkNotificationEncoder,
-                    edl::ValueNotificationDecoder::<String>::default,
-                    |s| p_dlnot(s, p_s),
+                    edl::ValueNotificationDecoder::<TB>::default,
+                    |s| p_dlnot(s, p_tb),
                     |e, m, d| {
                         let raw: DownlinkNotification<B> = match m {
                             DownlinkNotification::Event { body } => DownlinkNotification::Event { body: recon(&body) },
@@ -818,18 +862,18 @@ fn codecs() -> Vec<CodecInfo> {
                         };
                         ok!(e.encode(raw, d))
                     },
-                    |i: &DownlinkNotification<String>| r_dlnot(i, |b| r_s(b)),
+                    |i: &DownlinkNotification<TB>| r_dlnot(i, |b| r_tb(b)),
                 )
             },
-            gen: |r| g_dlnot(r, |r| r_s(&g_string(r))),
+            gen: |r| g_dlnot(r, |r| r_tb(&g_tb(r))),
         },
         CodecInfo {
             name: "dlnot-m",
             typed: true,
             mk: || {
-                mk::<DownlinkNotification<MapMessage<String, String>>, _, _>(
+                mk::<DownlinkNotification<MapMessage<String, TB>>, _, _>(
                     edl::DownlinkNotificationEncoder,
-                    edl::MapNotificationDecoder::<String, String>::default,
+                    edl::MapNotificationDecoder::<String, TB>::default,
                     |s| p_dlnot(s, typed_mapmsg),
                     |e, m, d| {
                         let raw: DownlinkNotification<B> = match m {
@@ -846,7 +890,7 @@ fn codecs() -> Vec<CodecInfo> {
                         };
                         ok!(e.encode(raw, d))
                     },
-                    |i: &DownlinkNotification<MapMessage<String, String>>| r_dlnot(i, rt_mapmsg),
+                    |i: &DownlinkNotification<MapMessage<String, TB>>| r_dlnot(i, rt_mapmsg),
                 )
             },
             gen: |r| g_dlnot(r, g_typed_mapmsg),
@@ -855,10 +899,10 @@ fn codecs() -> Vec<CodecInfo> {
             name: "reqmsg",
             typed: true,
             mk: || {
-                mk::<RequestMessage<String, String>, _, _>(
+                mk::<RequestMessage<String, TB>, _, _>(
                     proto::RawRequestMessageEncoder,
-                    || proto::RequestMessageDecoder::new(String::make_recognizer()),
-                    |s| p_req(s, some_str),
+                    || proto::RequestMessageDecoder::new(TB::make_recognizer()),
+                    |s| p_req(s, some_optstr),
                     |e, m, d| {
                         let RequestMessage { origin, path, envelope } = m;
                         let raw: RequestMessage<String, B> = RequestMessage {
@@ -873,38 +917,38 @@ fn codecs() -> Vec<CodecInfo> {
                         };
                         ok!(e.encode(raw, d))
                     },
-                    |i: &RequestMessage<swimos_model::Text, String>| r_req(i, r_string),
+                    |i: &RequestMessage<swimos_model::Text, TB>| r_req(i, r_opt_string),
                 )
             },
-            gen: |r| g_req(r, |r| hx(g_string(r))),
+            gen: |r| g_req(r, |r| r_opt_string(&g_tb(r))),
         },
         CodecInfo {
             name: "respmsg",
             typed: true,
             mk: || {
-                mk::<ResponseMessage<String, i64, B>, _, _>(
+                mk::<ResponseMessage<String, IB, B>, _, _>(
                     proto::ResponseMessageEncoder,
                     proto::RawResponseMessageDecoder::default,
-                    |s| p_resp(s, some_dec),
+                    |s| p_resp(s, some_dec_opt),
                     |e, m, d| ok!(e.encode(m, d)),
                     |i: &proto::BytesResponseMessage| r_resp(i, |b| hx(b)),
                 )
             },
-            gen: |r| g_resp(r, |r| dec_hex(g_int(r))),
+            gen: |r| g_resp(r, g_ib),
         },
         CodecInfo {
             name: "cmdmsg",
             typed: true,
             mk: || {
-                mk::<CommandMessage<String, String>, _, _>(
+                mk::<CommandMessage<String, TB>, _, _>(
                     ecmd::CommandMessageEncoder::default(),
-                    ecmd::CommandMessageDecoder::<String, String>::default,
-                    |s| p_cmd(s, un_str),
+                    ecmd::CommandMessageDecoder::<String, TB>::default,
+                    |s| p_cmd(s, un_opt_str),
                     |e, m, d| ok!(e.encode(m, d)),
-                    |i: &CommandMessage<String, String>| r_cmd(i, r_string),
+                    |i: &CommandMessage<String, TB>| r_cmd(i, r_opt_string),
                 )
             },
-            gen: |r| g_cmd(r, |r| hx(g_string(r))),
+            gen: |r| g_cmd(r, |r| r_opt_string(&g_tb(r))),
         },
     ]
 }
@@ -965,7 +1009,7 @@ fn g_uuid(r: &mut Rng) -> String {
 }
 fn g_mapop(r: &mut Rng, dec: bool) -> String {
     let k = |r: &mut Rng| if dec { dec_hex(r.below(2000) as i64 - 1000) } else { hx(g_bytes(r)) };
-    let v = |r: &mut Rng| if dec { dec_hex(g_int(r)) } else { hx(g_bytes(r)) };
+    let v = |r: &mut Rng| if dec { g_ib(r) } else { hx(g_bytes(r)) };
     match r.below(10) {
         0..=5 => format!("upd:{}:{}", k(r), v(r)),
         6..=8 => format!("rem:{}", k(r)),
@@ -981,7 +1025,7 @@ fn g_mapmsg(r: &mut Rng, dec: bool) -> String {
 }
 fn g_typed_mapop(r: &mut Rng) -> String {
     match r.below(10) {
-        0..=5 => format!("upd:{}:{}", hx(g_string(r)), hx(g_string(r))),
+        0..=5 => format!("upd:{}:{}", hx(g_string(r)), r_opt_string(&g_tb(r))),
         6..=8 => format!("rem:{}", hx(g_string(r))),
         _ => "clr".into(),
     }
@@ -1180,6 +1224,18 @@ fn recon_regions(codec: &str, msg: &str, frame: &[u8]) -> Vec<(usize, usize, &'s
     out
 }
 
+/// The message text has a zero-length bytes / Recon field (`-` = empty bytes, `~` = `None`, i.e. empty Recon text).
+fn has_empty_field(m: &str) -> bool {
+    let routed = ["adr:", "rgd:", "reg:", "cmd:", "event:", "unlinked:", "link:", "sync:", "unlink:", "linked:", "synced:"];
+    if routed.iter().any(|p| m.starts_with(p)) && !m.contains('(') {
+        // the body is the last field; `~` elsewhere is an absent host
+        let last = m.rsplit(':').next().unwrap_or("");
+        let kind = m.split(':').next().unwrap_or("");
+        return matches!(kind, "adr" | "rgd" | "cmd" | "event") && (last == "-" || last == "~");
+    }
+    m.split(|c| c == ':' || c == '(' || c == ')').any(|t| t == "-" || t == "~")
+}
+
 struct Case {
     id: String,
     ops: Vec<String>,
@@ -1203,8 +1259,19 @@ fn build_cases(info: &CodecInfo, r: &mut Rng, mode: &str, tag: &str, out: &mut V
     let nmsg = r.range(1, 6);
     let mut msgs = vec![];
     let mut frames: Vec<Vec<u8>> = vec![];
-    for _ in 0..nmsg {
-        let m = (info.gen)(r);
+    // every third sequence ends with a message that has an EMPTY body / key / value (zero-length field) if the codec
+    // can produce one: the boundary "complete frame, nothing behind it, nothing in it"
+    let empty_last = r.chance(1, 3);
+    for k in 0..nmsg {
+        let mut m = (info.gen)(r);
+        if empty_last && k + 1 == nmsg {
+            for _ in 0..24 {
+                if has_empty_field(&m) {
+                    break;
+                }
+                m = (info.gen)(r);
+            }
+        }
         match drv.enc(&m) {
             Some(f) => {
                 msgs.push(m);
